@@ -284,23 +284,6 @@ func TestHeaders(t *testing.T) {
 			"non-trivial = traceparent reaches past the length check (>= 55 bytes and >= 3 dashes) or the tracestate has >= 2 members; distinct = distinct case encodings",
 		Quick: 60000, Thorough: 600000,
 		Gen: genH, Run: runH,
-		Known: map[string]func(HCase, vk.Violation) bool{
-			"traceparent_v00_trailing_dash": knownV00TrailingDash,
-		},
 	})
 }
 
-// knownV00TrailingDash recognises exactly: a well-formed version-00
-// traceparent followed by ONE trailing "-" (56 bytes) is accepted although
-// version 00 allows nothing after the flags.
-func knownV00TrailingDash(c HCase, v vk.Violation) bool {
-	if v.Kind != "malformed_traceparent_accepted" || !c.HasTP {
-		return false
-	}
-	h := trimOWS(string(c.TP))
-	if len(h) != 56 || h[55] != '-' {
-		return false
-	}
-	r := refParseTraceparent(h[:55])
-	return r.OK && r.Version == 0
-}
